@@ -98,7 +98,8 @@ std::vector<Sub> vh_subs() {
       TrackedModule& tm = tracked_module(n, mt, mask);
       MODULE* mod = tm.mod;
       uint64_t s1 = v[4], s2 = v[5], nrows = v[6], ncols = v[7];
-      if (k >= 12) { s1 %= 3; s2 %= 3; nrows = 1 + nrows % 2; ncols = 1 + ncols % 2; }
+      // large rings: small shapes, except for the transforms themselves (dft / idft / idft_tmp_a: up to 5 limbs of 16384 coefficients)
+      if (k >= 12 && !(call >= 1 && call <= 3)) { s1 %= 3; s2 %= 3; nrows = 1 + nrows % 2; ncols = 1 + ncols % 2; }
       const uint64_t sl = n + v[8];
       const unsigned bits = (unsigned)std::min<int64_t>(v[10], (50 - (int64_t)k) / 2);
       Rng r((uint64_t)v[11]);
